@@ -307,6 +307,7 @@ func runVarCase(c *Ctx, ops []string) {
 }
 
 func propC20(c *Ctx) {
+	propScaleVariants(c)
 	scalars := []string{"n", "i0", "i-5", "i9223372036854775807", "l7", "l-9223372036854775808", "f3fc00000", "fNaN", "f80000000", "f00000000",
 		"d3ff8000000000000", "dNaN", "d0000000000000000", "s", "s97.98", "s233", "b1", "b0", "t0.0", "t1600000000.500", "p1500000000", "p0"}
 	arrays := []string{"a[]", "a[i1/i2]", "a[a[i1/i2]/a[s97]]", "a[s97/n/b1]", "a[a[i1]/i2]", "a[d3ff8000000000000]", "a[f80000000/d0000000000000000]"}
